@@ -162,7 +162,13 @@ def check(spec, ctx):
         # another molecule type whose name differs from the generated one in case only (MOL next to mol),
         # defined after it and listed after it
         top_text = top_text.replace("[ system ]", "[ moleculetype ]\nMOL 1\n[ atoms ]\n1 T1 1 ZZ Z1 1 0.0 72.0\n[ system ]")
-        top_text = top_text.replace("mol 2\n", "mol 2\nMOL 1\n")
+        split_lines = spec.get("rng", 1) % 6 == 0
+        if split_lines:
+            # the generated type on two separate [ molecules ] lines with the other type between them
+            top_text = top_text.replace("mol 2\n", "mol 1\nMOL 1\nmol 1\n")
+            ctx.label("molecule_type_listed_on_two_lines")
+        else:
+            top_text = top_text.replace("mol 2\n", "mol 2\nMOL 1\n")
         ctx.label("molecule_names_differing_in_case")
     (ctx.dir / "sys.top").write_text(top_text)
     # the process works in another directory that holds an older file of the same name: the include in
@@ -180,6 +186,8 @@ def check(spec, ctx):
     finally:
         os.chdir(here)
     if twin_case:
+        if split_lines and len(topology.molecules) == 3:
+            topology.molecules = [topology.molecules[0], topology.molecules[2], topology.molecules[1]]
         if len(topology.molecules) != 3 or topology.molecules[2].mol_name != "MOL" or len(topology.molecules[2].molecule.nodes) != 1:
             raise Violation("reread:molecule_list", f"{[(m.mol_name, len(m.molecule.nodes)) for m in topology.molecules]} expected two copies "
                                                     f"of mol and the one-atom MOL")
